@@ -1,16 +1,48 @@
-"""C13 block commit and removal are crash-atomic.  Crash.tla: a step is prepare / durable writes / cache update with a
-crash possible between any two sub-steps; AtomicRecovery holds for the one-batch shape and fails for shapes with a
-separate write (control).  Binding: crash-point enumeration on the real node: for the last step (apply / delete, with and
-without temp block, blocks with transactions, validator change, aggregate commit, finality advance) of TLC-generated Node
-scripts every file-system write/sync operation index is used as a crash point on pebble's strict in-memory file system
-(unsynced data lost), the node is restarted and the durable effects + recovery invariants are recorded; CrashTrace.tla
-validates every record."""
+"""C13 block commit and removal are crash-atomic.
+
+Crash.tla: a step is prepare / writes (each synced by itself or left to a later sync of the same log) / cache update with
+a crash possible between any two sub-steps under two crash models (powerloss: unsynced bytes are lost; processdeath:
+everything handed to the operating system survives).  Implementation shapes are data; AtomicRecovery holds for the
+one-batch-per-stage shapes (plain step, tie break = two stages, dead data pruned afterwards) and every unsafe shape
+(separate diff / finalized / genesis / temp-copy writes, pruning before the batch, an unsynced write in front of the batch
+under processdeath, a tie-break shortcut) exposes a forbidden state (controls, one TLC run).
+
+Binding: crash-point enumeration on the real node.  For the last step of TLC-generated Node scripts, of variants derived
+from them (restore of a temporary block, megabyte blocks and their removal / temporary copy / restoration, 3-5 transaction
+blocks, removal of blocks with assets / aggregate commit / finality raise, event pruning with KeepEventsForHeights 0..2,
+megabyte blocks that raise the finalized height on an event-pruning node), of the genesis commit, of LIP-0014 tie breaks
+(accepted and reverted ones: three admissible recovered states) and of a fixed TLC-generated long chain (MCNodeLong.tla:
+chain longer than the BFT window and a block cache of 2, consensus keys deleted by the block batch, cache reload on
+removal) every file-system write/sync operation index is a crash point on pebble's strict in-memory file system under
+both crash models; the node is restarted, the recovered database is compared with the states of the uninterrupted run
+(whole database, every key space; data the stored finalized height / event configuration declares dead is ignored), the
+recovery invariants are evaluated, the interrupted step is performed again on the restarted node; CrashTrace.tla validates
+every record."""
 import json, os, re
 import common
 from common import Inconclusive, finish, log
 from props import c01, c03
 
 LEVEL = "fault_enumeration"
+LONG = os.path.join(common.SPEC, "scripts", "c13_long.ndjson")
+
+def long_scripts(ctx, traces, keep):
+    """MCNodeLong.tla: chains of >= 10 blocks with every slot used, then removals; returns script lines (tag, cache 2)"""
+    r = ctx.tlc("MCNodeLong", "Node_long", workers=1, timeout=1500, simulate=traces, depth=18, seed=ctx.seed + 13)
+    if r["violation"]:
+        raise Inconclusive("MCNodeLong violates one of Node.tla's own properties: %s" % r["outpath"])
+    best = {}
+    for d in ctx.dumps(r["out"]):
+        s = d["script"]
+        dels = [x for x in s if x["op"] == "delete" and x.get("ok")]
+        # complete behaviours: the removals at the end, at least two of them in a row (more than the cache of 2 holds)
+        if len(dels) >= 2 and s[-1]["op"] == "delete" and s[-2]["op"] == "delete" and max(x["obs"]["cert"] for x in s) >= 2:
+            k = " ".join("%s%s%s" % (x["op"][0], x.get("chg", ""), x.get("saveTemp", "")) for x in s)
+            best.setdefault(k, s)
+    out = []
+    for i, s in enumerate(list(best.values())[:keep]):
+        out.append(json.dumps(dict(script=s, tag="long%d" % i if i else "long", cache=2)))
+    return out
 
 def crash_part(ctx, name, traces, maxs, maxp, mode=None, report=None):
     """crash-point enumeration on the last step of TLC-generated Node scripts + CrashTrace.tla validation of every record;
@@ -19,19 +51,39 @@ def crash_part(ctx, name, traces, maxs, maxp, mode=None, report=None):
     report = report or ctx.violation
     if ctx.replay:
         d = json.load(open(ctx.replay))["replay"]
-        sf = ctx.path(name + "_replay.ndjson"); open(sf, "w").write(json.dumps(dict(script=d["script"])) + "\n")
+        if not isinstance(d, dict) or "script" not in d:
+            raise Inconclusive("the replay file holds a monitor record, not a script: re-run the check itself")
+        sf = ctx.path(name + "_replay.ndjson")
+        open(sf, "w").write(json.dumps(dict(script=d["script"], verbatim=True, ke=d.get("ke", -1), batch=d.get("batch", 0), cache=d.get("cache", 0))) + "\n")
     else:
         sf, n = c03.generate(ctx, name, traces, 14, ctx.seed + 7, DumpEvery=3)
+        if mode is None:
+            # the long chain: a fixed TLC-generated behaviour in the quick tier (spec/scripts, regenerated with
+            # VERIF_C13_REGEN=1), fresh ones in the thorough tier
+            if ctx.tier == "thorough" or os.environ.get("VERIF_C13_REGEN"):
+                lines = long_scripts(ctx, 150, 6)
+                if not lines:
+                    raise Inconclusive("MCNodeLong produced no complete long-chain behaviour")
+                if os.environ.get("VERIF_C13_REGEN"):
+                    open(LONG, "w").write(lines[0] + "\n")
+                    log("[c13] %s rewritten" % LONG)
+            else:
+                lines = open(LONG).read().splitlines()
+            with open(sf, "a") as fh:
+                for l in lines:
+                    fh.write(l + "\n")
     cf = ctx.path(name + "_cfg.json"); json.dump(dict(c03.HCFG, network=False, maxTxs=4 << 20), open(cf, "w"))
     of = ctx.path(name + "_res.json"); tf = ctx.path(name + "_trace.ndjson")
     p = ctx.run([binp, sf, cf, of, tf, str(maxs), str(maxp)] + ([mode] if mode else []), timeout=3000)
     if not os.path.exists(of):
         raise Inconclusive("c13 harness failed (rc=%d): %s" % (p.returncode, p.stderr[-1500:]))
     res = json.load(open(of))
-    if res.get("harness_errors"):
-        raise Inconclusive("c13 harness error: %s" % res["harness_errors"][:2])
     for v in res.get("violations") or []:
         report(v["key"], v["what"], v.get("replay"))
+    if res.get("harness_errors") and not ctx.violations:
+        # scripts that could not be replayed up to their last step (no crash involved: not this property's business); a
+        # violation observed on another script stands on its own replay
+        raise Inconclusive("c13 harness error: %s" % res["harness_errors"][:2])
     lines = open(tf).read().splitlines()
     r = ctx.tlc("CrashTrace", "CrashTrace", workers=1, timeout=1200, files={"trace.ndjson": tf})
     if r["distinct"] - 1 != len(lines):
@@ -45,27 +97,55 @@ def crash_part(ctx, name, traces, maxs, maxp, mode=None, report=None):
             report(key, "crash record rejected by CrashTrace.tla: %s" % json.dumps(e)[:400], dict(record=e))
     return res, lines, reported
 
+# what a run must have exercised (crash points > 0), else it is inconclusive: step kinds, and the facets that are either
+# produced by a directed script (derived variant, genesis, the long chain) or all but certain in 120 simulated behaviours
+KINDS = ("block", "delete", "delete+temp", "restore", "genesis", "tiebreak", "tiebreak-bad")
+FACETS = ("genesis",
+          "apply+chg-block", "apply+tx-block", "apply+multi-tx-block", "apply+megabyte-block", "apply+valid-ac-block",
+          "apply+fin-raise", "apply+fin-jump", "apply+temp-present", "apply+after-chg",
+          "apply+prunes-diffs", "apply+prunes-live-diffs", "apply+prunes-events", "apply+prunes-live-events", "events-pruned-by-config",
+          "apply+megabyte-fin-raise-events-pruned", "apply+fat-chain-fin-raise-events-pruned+wal-rotation", "step+wal-rotation",
+          "remove+chg-block", "remove+tx-block", "remove+multi-tx-block", "remove+megabyte-block", "remove+valid-ac-block",
+          "remove+fin-raising-block", "remove+temp-present",
+          "restore+chg-block", "restore+tx-block", "restore+multi-tx-block", "restore+megabyte-block",
+          "diff-with-deleted-consensus-keys", "remove+cache-fallback", "restart+chain-longer-than-cache")
+
 def run(ctx):
-    r1 = ctx.tlc("MCCrash", "Crash_onebatch", workers=2, timeout=300)
+    r1 = ctx.tlc("MCCrash", "Crash_shapes", workers=2, timeout=300)
     if r1["violation"]:
-        raise Inconclusive("Crash.tla: the one-batch shape violates AtomicRecovery at spec level")
-    r2 = ctx.tlc("MCCrash", "Crash_diffseparate", workers=2, timeout=300, check=False)
-    if not ctx.violations and (not r2["violation"]):
-        raise Inconclusive("Crash.tla control (separate diff write) does not violate AtomicRecovery: model is vacuous")
+        raise Inconclusive("Crash.tla: a shape that is expected to be atomic violates AtomicRecovery at spec level")
+    expect = set(re.findall(r'<<"EXPECT", "([a-z-]+)", "([a-z]+)">>', r1["out"]))
+    control = set(re.findall(r'<<"CONTROL", "([a-z-]+)", "([a-z]+)">>', r1["out"]))
+    if len(expect) < 10 or expect - control:
+        raise Inconclusive("Crash.tla controls: unsafe shapes that expose no forbidden state: %s (model is vacuous)" % sorted(expect - control))
     traces = 120 if ctx.tier == "quick" else 1200
-    maxs, maxp = (250, 40) if ctx.tier == "quick" else (3000, 60)
+    maxs, maxp = (170, 40) if ctx.tier == "quick" else (3000, 60)
     res, lines, reported = crash_part(ctx, "sim13", traces, maxs, maxp)
-    log("[c13] scripts=%d crash points=%d by kind %s pre=%d post=%d violations=%s" % (res["scripts"], res["crash_points"], res["steps_by_kind"],
-        res["recovered_pre_state"], res["recovered_post_state"], sorted(reported)))
-    if not ctx.violations and (res["crash_points"] < 50 or res["recovered_post_state"] == 0 or res["recovered_pre_state"] == 0 or len(res["steps_by_kind"]) < 2):
-        raise Inconclusive("crash points did not cover pre and post states of apply and delete: vacuous")
-    ctx.states -= r2["distinct"]; ctx.transitions -= r2["generated"]
+    log("[c13] scripts=%d %s crash points=%d by kind %s by model %s pre=%d between=%d post=%d redone=%d violations=%s" % (res["scripts"], res["scripts_by_origin"],
+        res["crash_points"], res["steps_by_kind"], res["crash_points_by_model"], res["recovered_pre_state"], res["recovered_between_stages"],
+        res["recovered_post_state"], res["steps_redone_after_recovery"], sorted(reported)))
+    if not ctx.violations and not ctx.replay:
+        missing = [k for k in KINDS if not res["steps_by_kind"].get(k)] + [f for f in FACETS if not res["crash_points_by_facet"].get(f)]
+        if missing:
+            raise Inconclusive("no crash point covered: %s (vacuous for these; if the long-chain facets are missing, spec/scripts/c13_long.ndjson "
+                               "no longer replays: regenerate it with VERIF_C13_REGEN=1 bin/check C13 quick)" % missing)
+        if res["crash_points"] < 300 or res["recovered_post_state"] == 0 or res["recovered_pre_state"] == 0 or res["recovered_between_stages"] == 0 \
+                or res["steps_redone_after_recovery"] == 0 or min(res["crash_points_by_model"].get(m, 0) for m in ("powerloss", "processdeath")) < 100:
+            raise Inconclusive("crash points did not cover pre / intermediate / post states under both crash models: vacuous")
     cov = dict(evaluations=res["crash_points"], distinct_nontrivial=res["distinct_step_shapes"],
-               rule="one evaluation = one (script, crash operation index) pair; distinct = distinct shapes of the interrupted step "
-                    "(kind, parameter change, aggregate commit, transactions, height, temp block, chain length)",
+               rule="one evaluation = one (script, crash model, crash operation index) triple; distinct = distinct shapes of the interrupted step "
+                    "(kind, parameter change, aggregate commit, transactions, height, temp block, chain length, what the removed block carried, "
+                    "temporary blocks present, parameter changes before)",
                samples=[json.loads(l) for l in lines[:3]], crash_points_by_step_kind=res["steps_by_kind"],
-               recovered_pre_state=res["recovered_pre_state"], recovered_post_state=res["recovered_post_state"],
+               crash_points_by_model=res["crash_points_by_model"], crash_points_by_facet=res["crash_points_by_facet"],
+               scripts_by_facet=res["scripts_by_facet"], scripts_by_origin=res["scripts_by_origin"],
+               recovered_pre_state=res["recovered_pre_state"], recovered_between_stages=res["recovered_between_stages"],
+               recovered_post_state=res["recovered_post_state"], steps_redone_after_recovery=res["steps_redone_after_recovery"],
+               crash_shapes_safe_and_controls=dict(controls=sorted("%s/%s" % c for c in control)),
                traces_validated_against_impl=len(lines), exhaustive=False)
     finish(ctx, LEVEL, cov, assumptions=[
-        "pebble's batch write is atomic (WAL record) and vfs.NewStrictMem models sync faithfully: all unsynced bytes are lost, torn records are not modelled",
+        "pebble's batch write is atomic (one WAL record, torn tails are dropped at replay) and vfs.NewStrictMem models sync faithfully; two crash models: "
+        "all unsynced bytes lost / everything written survives; partially persisted pages are not modelled",
+        "revert diffs of heights at or below the stored finalized height and event records the node's KeepEventsForHeights setting allows to drop are "
+        "not part of the compared state (the statement does not name their pruning)",
         "toy application keeps its state in memory and is rebuilt from the stored headers at restart (application crash atomicity is part of C16)"])
